@@ -98,9 +98,12 @@ def fast_diag_contraction_structure(K, shape):
 @unit("fast_diag_native_neumann_problem", props=("C11",), kernels=False, native_check=True,
       configs=[dict(shape=(2, 2), precision="double"), dict(shape=(7, 4), precision="double"), dict(shape=(5, 9), precision="single"),
                dict(shape=(2, 3, 5), precision="double"), dict(shape=(6, 4, 3), precision="single"), dict(shape=(16, 9, 12), precision="double"),
-               dict(shape=(52, 3), precision="single"), dict(shape=(4, 6, 56), precision="single")],
+               dict(shape=(52, 3), precision="single"), dict(shape=(4, 6, 56), precision="single"),
+               dict(shape=(6, 5), precision="double", history="other_precision_first"),
+               dict(shape=(4, 5, 4), precision="double", history="other_precision_first"),
+               dict(shape=(4, 5, 4), precision="single", history="other_precision_first")],
       desc="BOUNDED native stand-in: assembly, eigen-decomposition (LAPACK) and lemma M9 on small non-cubic grids")
-def fast_diag_native_neumann_problem(K, shape, precision):
+def fast_diag_native_neumann_problem(K, shape, precision, history=None):
     shape = tuple(shape)
     if K.mode == "sym":
         return None
@@ -111,6 +114,13 @@ def fast_diag_native_neumann_problem(K, shape, precision):
     dx = K.real("dx", pos=True)
     cls = K.repo(f"{MOD[dim]}:FastDiagPoissonSolver{dim}D")
     kw = {f"grid_size_{a}": n for a, n in zip("zyx"[3 - dim:], shape)}
+    if history == "other_precision_first":
+        # call history: a solver of the OTHER precision for the same grid (spacing exactly representable in both
+        # precisions) was constructed and used earlier in the same process
+        dx = 0.0625
+        other_t = np.float32 if precision == "double" else np.float64
+        other = cls(dx=other_t(dx), real_t=other_t, **kw)
+        other.solve(solution_field=np.zeros(shape, dtype=other_t), rhs_field=K.rng.normal(size=shape).astype(other_t))
     sol = cls(dx=real_t(dx), real_t=real_t, **kw)
     f = K.rng.normal(size=shape).astype(real_t)
     f0 = f.copy()
@@ -169,9 +179,10 @@ class _SppStub:
 
 @unit("fast_diag_assembly_and_spectral_weights", props=("C11",), kernels=False,
       configs=[dict(shape=(2, 3)), dict(shape=(3, 2)), dict(shape=(2, 3, 2)), dict(shape=(1, 2, 3))],
-      assumes=("numpy.linalg.eigh contract: ascending real eigenvalues, eigenvectors as columns; numpy.linalg.inv: the inverse "
+      assumes=("numpy.linalg.eigh contract: ascending real eigenvalues, eigenvectors as columns, a function of its argument; numpy.linalg.inv: the inverse "
                "(both replaced by stubs returning symbolic arrays)", "scipy.sparse.diags(...).toarray() is the banded matrix",
                "lemma M9: for the Neumann matrix the eigenvalue 0 is simple and is the smallest, hence LAST after the descending sort",
+               "axes with equal 1-D operators may share one decomposition (matched by the matrix handed to eigh, not by call order)",
                "sizes bounded; dx and all eigen-data symbolic"))
 def fast_diag_assembly_and_spectral_weights(K, shape):
     """real constructor path (_construct_poisson_matrices, _apply_boundary_conds..., _compute_spectral_decomp...):
@@ -189,29 +200,39 @@ def fast_diag_assembly_and_spectral_weights(K, shape):
     cls = K.repo(f"{MOD[dim]}:FastDiagPoissonSolver{dim}D")
     axes = "zyx"[3 - dim:]
     dx = K.real("dx", pos=True)
-    seen = []
-    lam, vec, inv = {}, {}, {}
+    calls, invs = [], []  # every la.eigh / la.inv call of the constructor, by contract
+
+    def same_matrix(a_, b_):
+        return a_.shape == b_.shape and all(S_(a_[idx]).same(S_(b_[idx])) for idx in np.ndindex(*a_.shape))
 
     class LA:
         @staticmethod
         def eigh(mat):
             n = mat.shape[0]
-            a = axes[::-1][len(seen)]  # the constructor decomposes x first, then y, then z
-            seen.append((a, mat.copy()))
-            lam[a] = objnp.fresh(f"lambda_{a}", (n,))
-            K.requires(S_(lam[a][0]) == 0)  # M9: the Neumann matrix has the simple eigenvalue 0, all others positive
+            for c in calls:  # eigh is a FUNCTION of its argument: an equal matrix gets the same eigen-data
+                if same_matrix(c["mat"], mat):
+                    calls.append(dict(mat=mat.copy(), lam=c["lam"], vec=c["vec"]))
+                    return c["lam"].copy(), c["vec"].copy()
+            k = len(calls)
+            lam_k = objnp.fresh(f"lambda_{k}", (n,))
+            K.requires(S_(lam_k[0]) == 0)  # M9: the Neumann matrix has the simple eigenvalue 0, all others positive
             for i in range(n - 1):  # ascending (eigh's contract)
-                K.requires(S_(lam[a][i]) < S_(lam[a][i + 1]))
-            vec[a] = objnp.fresh(f"U_{a}", (n, n))
-            return lam[a].copy(), vec[a].copy()
+                K.requires(S_(lam_k[i]) < S_(lam_k[i + 1]))
+            vec_k = objnp.fresh(f"U_{k}", (n, n))
+            calls.append(dict(mat=mat.copy(), lam=lam_k, vec=vec_k))
+            return lam_k.copy(), vec_k.copy()
 
         eig = eigh
 
         @staticmethod
         def inv(mat):
-            a = [ax for ax in axes if ax not in inv][-1] if False else axes[::-1][len(inv)]
-            inv[a] = (objnp.fresh(f"Uinv_{a}", mat.shape), mat.copy())
-            return inv[a][0]
+            for arg, r in invs:
+                if same_matrix(arg, mat):
+                    invs.append((mat.copy(), r))
+                    return r.copy()
+            res = objnp.fresh(f"Uinv_{len(invs)}", mat.shape)
+            invs.append((mat.copy(), res))
+            return res.copy()
 
         multi_dot = staticmethod(np.linalg.multi_dot)
 
@@ -222,35 +243,50 @@ def fast_diag_assembly_and_spectral_weights(K, shape):
         sol = cls(dx=dx, real_t=SymReal64, **kw)
     finally:
         m.la, m.spp, m.np = saved
-    # ---- assembly: second-order negative Laplacian with homogeneous Neumann closure, over dx^2 ---------------------
-    K.ensures("one_decomposition_per_axis_x_then_y_then_z", [a for a, _ in seen] == list(axes[::-1]))
-    for a, mat in seen:
-        n = mat.shape[0]
+
+    def neumann_entry(n, i, j):
+        if i == j:
+            if n == 1:
+                return 1  # both closures coincide on a one-cell axis (the later assignment wins)
+            return 1 if (i == 0 or i == n - 1) else 2
+        return -1 if abs(i - j) == 1 else 0
+
+    # ---- assembly: for every axis the second-order negative Laplacian with homogeneous Neumann closure, over dx^2, is
+    #      among the decomposed matrices (axes with EQUAL operators may share one decomposition) -----------------------------
+    lam, vec = {}, {}
+    for pos, a in enumerate(axes[::-1]):  # x first: the order in which the constructor decomposes
+        n = shape[axes.index(a)]
+        target = np.empty((n, n), dtype=object)
         for i in range(n):
             for j in range(n):
-                if i == j:
-                    exp = (1 if (i == 0 or i == n - 1) else 2)
-                    if n == 1:
-                        exp = 1  # both closures coincide on a one-cell axis (the later assignment wins)
-                else:
-                    exp = -1 if abs(i - j) == 1 else 0
-                K.ensures_eq(f"neumann_laplacian_entry[{a},{i},{j}]", mat[i, j], exp / dx**2)
+                target[i, j] = neumann_entry(n, i, j) / dx**2
+        match = [c for c in calls if same_matrix(c["mat"], target)]
+        # no exact match: report entry by entry against the decomposition made at this axis' position (if any)
+        cand = match[0] if match else (calls[pos] if pos < len(calls) and calls[pos]["mat"].shape == (n, n) else None)
+        K.ensures(f"operator_of_axis_is_decomposed[{a}]", cand is not None)
+        if cand is None:
+            return
+        for i in range(n):
+            for j in range(n):
+                K.ensures_eq(f"neumann_laplacian_entry[{a},{i},{j}]", cand["mat"][i, j], target[i, j])
+        lam[a], vec[a] = cand["lam"], cand["vec"]
     # ---- eigenvectors: descending re-sort keeps eigenpairs together; the inverse is taken of the SORTED matrix ------------
     for a in axes:
         n = shape[axes.index(a)]
         V = getattr(sol, f"eig_vecs_{a}", None)
         if V is None:  # 2-D solver stores the x matrices transposed
             V = sol.tranpose_of_eig_vecs_x.T
+        sorted_vec = np.empty((n, n), dtype=object)
         for i in range(n):
             for k in range(n):
-                K.ensures_eq(f"sorted_eigenvector_columns[{a},{i},{k}]", V[i, k], vec[a][i, n - 1 - k])
-        Vi_arg = inv[a][1]
-        K.ensures(f"inverse_is_taken_of_the_sorted_eigenvector_matrix[{a}]",
-                  all(S_(Vi_arg[i, k]).same(S_(vec[a][i, n - 1 - k])) for i in range(n) for k in range(n)))
+                sorted_vec[i, k] = vec[a][i, n - 1 - k]
+                K.ensures_eq(f"sorted_eigenvector_columns[{a},{i},{k}]", V[i, k], sorted_vec[i, k])
+        inv_call = [r for arg, r in invs if same_matrix(arg, sorted_vec)]
+        K.ensures(f"inverse_is_taken_of_the_sorted_eigenvector_matrix[{a}]", bool(inv_call))
         Vi = getattr(sol, f"inv_of_eig_vecs_{a}", None)
         if Vi is None:
             Vi = sol.tranpose_of_inv_of_eig_vecs_x.T
-        K.ensures(f"stored_inverse_is_la_inv_result[{a}]", all(S_(Vi[idx]).same(S_(inv[a][0][idx])) for idx in np.ndindex(n, n)))
+        K.ensures(f"stored_inverse_is_la_inv_result[{a}]", bool(inv_call) and same_matrix(Vi, inv_call[0]))
     # ---- spectral weights --------------------------------------------------------------------------------------------
     W = sol.inv_eig_val_matrix
     K.ensures("weight_tensor_shape", W.shape == shape)
